@@ -382,10 +382,22 @@ func concRequests(accts []Acct) []concReq {
 // ---------------------------------------------------------------------------------------------------
 // generator: decorate an inner history
 
+var nodeKind string
+
 func genNodeHistory(r *RNG, nBlocks int) []string {
 	var inner []string
 	var qpool []string
 	k := r.Intn(11)
+	switch nodeKind { // -kind: the inner generator is fixed (short single-kind runs in processes of their own)
+	case "aol":
+		k = 0
+	case "pnft":
+		k = 5
+	case "burn":
+		k = 7
+	case "did":
+		k = 9
+	}
 	switch {
 	case k == 10:
 		inner = genAolListHistory(r.Fork(), 4) // genesis-seeded state: the twin imports the same genesis maps in another order
